@@ -345,10 +345,13 @@ def rule_fold(ctx):
         ctx.holds('R2', '_common_axis: every real input joined once, in input order, placeholders skipped (%d input patterns x 2 joins)' % (ncase // 2))
         ctx.holds('R2', '_common_axis: association of the joins for 3 inputs: %s' % (FOLD_TREES.get(3),))
     # _get_aligned_axes collection
-    fi = ctx.fn(AL + '_get_aligned_axes')
+    fi = _collection_host(ctx)
     ARR = P_('arrays')
     ev = run(ctx, fi, bind={'axis': T.CONST_NONE, 'strict': T.CONST_FALSE}, mode='join')
     good = False
+    if not any(True for p in ev.paths for e in p.calls('_common_axis')):
+        ctx.undecide('R2', '%s: no call of _common_axis found (the per-dimension collection moved elsewhere)' % fi.qualname)
+        return
     for p in ev.paths:
         for e in p.calls('_common_axis'):
             a0 = e.a[2][0]
@@ -370,10 +373,20 @@ def rule_fold(ctx):
         ctx.violated('R2', fi, '_get_aligned_axes', 'the common axis must be computed from the axes of the arrays that have the dimension (d in arrays[i].dims)')
 
 
+def _collection_host(ctx):
+    """the function that collects, per dimension, the axes to join: the private helper _get_aligned_axes, or align() itself when the helper's body
+    was merged into its only caller"""
+    fi = ctx.P.functions.get(AL + '_get_aligned_axes')
+    if fi is not None:
+        ctx.functions.add(fi.qualname)
+        return fi
+    return ctx.fn(AL + 'align')
+
+
 def rule_align(ctx, rid='R3'):
     ctx.rule(rid, 'align(): reindex step', 3)
     fi = ctx.fn(AL + 'align')
-    gaa = ctx.fn(AL + '_get_aligned_axes')
+    gaa = ctx.P.functions.get(AL + '_get_aligned_axes')
     ARR = P_('arrays')
     ev = run(ctx, fi, mode='join', oracle=lambda a, st: (True if (a[0] == 'call' and T.dotted(a[1]) == 'isinstance' and a[2][0] == ARR) else None))
     rets = ret_paths(ev)
@@ -381,16 +394,24 @@ def rule_align(ctx, rid='R3'):
     p = rets[0]
     # forwarding of the options
     calls = [e.a for e in p.calls('_get_aligned_axes')]
-    if len(calls) != 1:
-        ctx.violated(rid, fi, '_get_aligned_axes', 'align must compute the common axes once')
-        return
-    b = bind_call_args(calls[0], gaa)
-    wrong = [k for k in ('join', 'axis', 'sort', 'strict') if b.get(k) != P_(k)]
-    if wrong:
-        ctx.violated(rid, fi, T.show(calls[0])[:140], 'options %s are not forwarded to _get_aligned_axes' % wrong)
+    if gaa is None:
+        # no helper: the common axes are collected in align() itself (rule R2 reads that collection); they are the _common_axis results
+        if not any(True for e in p.calls('_common_axis')):
+            ctx.undecide(rid, 'align: neither _get_aligned_axes nor _common_axis is called')
+            return
+        axes_term = None
+        ctx.holds(rid, 'align computes the common axes itself (options used where they are given)')
     else:
-        ctx.holds(rid, 'align forwards join/axis/sort/strict')
-    axes_term = calls[0]
+        if len(calls) != 1:
+            ctx.violated(rid, fi, '_get_aligned_axes', 'align must compute the common axes once')
+            return
+        b = bind_call_args(calls[0], gaa)
+        wrong = [k for k in ('join', 'axis', 'sort', 'strict') if b.get(k) != P_(k)]
+        if wrong:
+            ctx.violated(rid, fi, T.show(calls[0])[:140], 'options %s are not forwarded to _get_aligned_axes' % wrong)
+        else:
+            ctx.holds(rid, 'align forwards join/axis/sort/strict')
+        axes_term = calls[0]
     # the reindex call
     rx = [e for e in p.calls('reindex_axis')]
     if not rx:
@@ -410,7 +431,9 @@ def rule_align(ctx, rid='R3'):
                          'inner loop over the axes: every axis after the first reindexes the stale, not yet reindexed array and only the last '
                          'reindexing survives', node=e.node)
             continue
-        if not (arg is not None and arg[0] == 'elem' and arg[1] == axes_term):
+        from_common = arg is not None and arg[0] == 'elem' and (arg[1] == axes_term if axes_term is not None else
+                                                                   any(x[0] == 'call' and T.call_name(x) == '_common_axis' for x in T.subterms(arg[1])))
+        if not from_common:
             ctx.violated(rid, fi, e.node, 'each array must be reindexed on the common axis computed by _get_aligned_axes', node=e.node)
             continue
         # o must iterate the private list
@@ -438,6 +461,15 @@ def rule_align(ctx, rid='R3'):
                     okc = True
                 else:
                     ctx.violated(rid, fi, e.node, 'the reindexed array must replace the element it was computed from (arrays[i] with the same i)', node=e.node)
+    if not stores:
+        # no store at all: a new list is built for each axis, [o if <nothing to do> else o.reindex_axis(ax) for o in arrays] - the element of a list
+        # comprehension takes the place of the element it was computed from
+        for x in T.subterms(p.value):
+            if x[0] == 'comp' and x[1] == 'list' and len(x[3]) == 1 and not x[3][0][2]:
+                el = ('elem', x[3][0][1], x[3][0][0])
+                alts = T.value_alts(x[2])
+                if el in alts and all(a == el or (a[0] == 'call' and T.call_name(a) == 'reindex_axis' and T.call_receiver(a) == el) for a in alts) and len(alts) == 2:
+                    okc = True
     if okc:
         ctx.holds(rid, 'align: result stored at the same index of a private list copy')
     if p.value[0] not in ('comp', 'setitem', 'phi', 'call') or p.value == ARR:
@@ -447,7 +479,7 @@ def rule_align(ctx, rid='R3'):
 def rule_sort_ownership(ctx):
     ctx.rule('R4', 'sorted common axis is a fresh copy', 2)
     ctx.rule('R5', 'sort ascending', 2)
-    fi = ctx.fn(AL + '_get_aligned_axes')
+    fi = _collection_host(ctx)
     ev = run(ctx, fi, bind={'sort': T.CONST_TRUE}, mode='join')
     sorts = [e for p in ev.paths for e in p.calls('sort')]
     if not sorts:
@@ -476,7 +508,7 @@ def rule_sort_ownership(ctx):
         for e in p.calls('append'):
             if e.loops and T.show(e.a[1]).endswith('.append'):
                 a = e.a[2][0]
-                alts = T.strip_phi(a)
+                alts = T.value_alts(a)
                 if not any(x[0] in ('mut',) or (x[0] == 'call' and T.call_name(x) == 'copy') for x in alts):
                     ctx.violated('R4', fi, e.node, 'with sort=True the sorted copy must be the axis that is used', node=e.node)
     # Axis.copy is deep
